@@ -14,7 +14,23 @@ fn main() {
     }
     let prop: &'static str = Box::leak(args[1].clone().into_boxed_str());
     let mode = args[2].as_str();
+    if std::env::var_os("VERIF_WORKER").is_none() && mode != "convert" {
+        supervise(prop, &args);
+    }
     vcore::util::install_panic_hook();
+    if mode == "replay" {
+        // a case that killed the whole process (see `supervise`)
+        if let Some(path) = args.get(3) {
+            if let Ok(doc) = std::fs::read_to_string(path)
+                .map_err(|_| ())
+                .and_then(|t| serde_json::from_str::<serde_json::Value>(&t).map_err(|_| ()))
+            {
+                if doc.get("killed_by").is_some() {
+                    replay_killer(prop, &doc);
+                }
+            }
+        }
+    }
     if mode == "convert" {
         let raw = args.get(4).is_some_and(|x| x == "raw");
         vcore::ck_engine::convert(prop, &args[3], raw);
@@ -81,4 +97,135 @@ fn main() {
         std::process::exit(2);
     }
     println!("OK property={}", report.property);
+}
+
+fn run_worker(args: &[String], envs: &[(&str, String)]) -> std::process::ExitStatus {
+    let mut c = std::process::Command::new(std::env::current_exe().expect("exe"));
+    c.args(&args[1..]).env("VERIF_WORKER", "1");
+    for (k, v) in envs {
+        c.env(k, v);
+    }
+    c.status().expect("spawn worker")
+}
+
+fn describe(st: std::process::ExitStatus) -> String {
+    use std::os::unix::process::ExitStatusExt;
+    match (st.code(), st.signal()) {
+        (_, Some(sig)) => format!("signal {sig}"),
+        (Some(c), _) => format!("exit code {c}"),
+        _ => "unknown status".into(),
+    }
+}
+
+/// The check itself runs in a child process. A generated case may take the
+/// whole process down (a panic inside a destructor that runs during another
+/// panic aborts; so does a failed assertion in a background thread of the
+/// code under test followed by panicking destructors). That must be reported
+/// as a violation with a replayable case, not as a crashed check: the child
+/// leaves the bytes of every case in flight on disk, and the candidates are
+/// re-run one by one, each in its own process.
+fn supervise(prop: &str, args: &[String]) -> ! {
+    let dir = std::path::PathBuf::from(format!("/verif/target/current-{}", std::process::id()));
+    let _ = std::fs::remove_dir_all(&dir);
+    std::fs::create_dir_all(&dir).expect("scratch dir");
+    let st = run_worker(args, &[("VERIF_CURRENT_DIR", dir.display().to_string())]);
+    if let Some(c) = st.code() {
+        if (0..=2).contains(&c) {
+            let _ = std::fs::remove_dir_all(&dir);
+            std::process::exit(c);
+        }
+    }
+    println!("note: the checking process died ({}); looking for the case that killed it", describe(st));
+    let mut cands: Vec<std::path::PathBuf> = std::fs::read_dir(&dir)
+        .map(|d| d.filter_map(|e| e.ok().map(|e| e.path())).collect())
+        .unwrap_or_default();
+    cands.sort();
+    let mode_args: Vec<String> = if args[2] == "replay" {
+        // the replayed file itself is the case
+        println!("VIOLATION property={prop} replay={}", args[3]);
+        println!("  the process died ({}) while replaying this case", describe(st));
+        let _ = std::fs::remove_dir_all(&dir);
+        std::process::exit(1);
+    } else {
+        args.to_vec()
+    };
+    for c in cands {
+        let name = c.file_name().unwrap().to_string_lossy().to_string();
+        let Some(call) = name
+            .strip_prefix("call")
+            .and_then(|r| r.split('-').next())
+            .and_then(|n| n.parse::<usize>().ok())
+        else {
+            continue;
+        };
+        let st2 = run_worker(
+            &mode_args,
+            &[
+                ("VERIF_ONLY_BYTES", c.display().to_string()),
+                ("VERIF_ONLY_CALL", call.to_string()),
+                ("VERIF_NO_EVIDENCE", "1".into()),
+            ],
+        );
+        match st2.code() {
+            Some(0) | Some(2) => {}
+            // the case fails in an orderly way on its own: the worker has
+            // printed its VIOLATION line and written a structured replay
+            Some(1) => {
+                let _ = std::fs::remove_dir_all(&dir);
+                std::process::exit(1);
+            }
+            _ => {
+                let bytes = std::fs::read(&c).unwrap_or_default();
+                let doc = serde_json::json!({
+                    "property": prop,
+                    "killed_by": describe(st2),
+                    "mode": mode_args[2],
+                    "drive_call": call,
+                    "bytes": bytes,
+                    "message": format!("the process died ({}) while this generated case was running", describe(st2)),
+                });
+                let path = vcore::driver::write_replay(prop, &doc, &format!("process died: {}", describe(st2)));
+                println!("VIOLATION property={prop} replay={}", path.display());
+                println!("  the process died ({}) while this generated case was running (replay re-runs it in a child process)", describe(st2));
+                let _ = std::fs::remove_dir_all(&dir);
+                std::process::exit(1);
+            }
+        }
+    }
+    println!("INCONCLUSIVE property={prop} the checking process died ({}) and no single case in flight reproduces it", describe(st));
+    let _ = std::fs::remove_dir_all(&dir);
+    std::process::exit(2);
+}
+
+/// Replay of a case recorded by `supervise`: this is the worker; run the
+/// search restricted to exactly that case.
+fn replay_killer(prop: &'static str, doc: &serde_json::Value) -> ! {
+    let bytes: Vec<u8> = doc["bytes"]
+        .as_array()
+        .map(|a| a.iter().map(|x| x.as_u64().unwrap_or(0) as u8).collect())
+        .unwrap_or_default();
+    let tmp = std::path::PathBuf::from(format!("/verif/target/killer-{}.bin", std::process::id()));
+    std::fs::write(&tmp, &bytes).expect("write");
+    let exe = std::env::current_exe().expect("exe");
+    let st = std::process::Command::new(exe)
+        .args([prop, doc["mode"].as_str().unwrap_or("quick")])
+        .env("VERIF_WORKER", "1")
+        .env("VERIF_ONLY_BYTES", &tmp)
+        .env("VERIF_ONLY_CALL", doc["drive_call"].as_u64().unwrap_or(0).to_string())
+        .env("VERIF_NO_EVIDENCE", "1")
+        .status()
+        .expect("spawn");
+    let _ = std::fs::remove_file(&tmp);
+    match st.code() {
+        Some(0) => {
+            println!("OK property={prop}");
+            std::process::exit(0)
+        }
+        Some(c @ 1..=2) => std::process::exit(c),
+        _ => {
+            println!("VIOLATION property={prop} replay=(this file)");
+            println!("  the process died ({}) while this case was running", describe(st));
+            std::process::exit(1)
+        }
+    }
 }
